@@ -21,7 +21,10 @@ FRAGMENT_SIZE = 4000
 
 def is_continuation(vc, content, off):
     """the byte at `off` is a UTF-8 continuation byte (10xxxxxx): a cut there splits a character"""
-    c = code_at(content, off) if vc.mode == "sym" else content[off]
+    if vc.mode != "sym":
+        # natively And/Implies evaluate their arguments eagerly: out-of-range offsets (guarded by the caller's premise) are no byte
+        return 0 <= off < len(content) and 0x80 <= content[off] <= 0xBF
+    c = code_at(content, off)
     return And(c >= 0x80, c <= 0xBF)
 
 
